@@ -52,6 +52,7 @@ fn main() {
         "stack" => tvh::stack::run(&mut rng, thorough, &corpus),
         "tui" => tvh::tui::run(&mut rng, thorough, &corpus),
         "platform" => tvh::platform::run(&mut rng, thorough, &corpus),
+        "report" => tvh::report::run(&mut rng, thorough, &corpus),
         _ => { eprintln!("unknown component {comp}"); std::process::exit(2); }
     };
     run.write(&out, &comp).expect("write outputs");
